@@ -88,7 +88,7 @@ def run(ctx):
     for i in range(ctx.budget(300, 6000)):
         if ctx.out_of_time():
             break
-        case = gen_levels.hier_case(rng, share_p=rng.choice([0, 0, 0.4]))
+        case = gen_levels.hier_case(rng, share_p=rng.choice([0, 0, 0.4]), virtual_p=rng.choice([0, 0, 0.5]))
         if i % 4 == 3:
             # coarse last level: drop the atomistic block
             case['all_atom'] = False
